@@ -44,7 +44,7 @@ ASSUMPTIONS = [
     "real BSC / AWGN channels: damage classified after the run from the tapped signals; over-budget runs assert nothing",
     "families that advertise no distance (generic linear, LDPC, polar) run only on ideal / displace plans",
 ]
-COMPONENTS_REAL = ["ChannelCodeModel", "all block-code encoders", "all hard and soft decoders", "BPSK/QPSK/PSK/QAM/PAM/pi4-QPSK/identity modulators and demodulators", "IdentityConstraint", "PerfectChannel", "BinarySymmetricChannel", "AWGNChannel"]
+COMPONENTS_REAL = ["ChannelCodeModel", "all block-code encoders", "all hard and soft decoders", "BPSK/QPSK/PSK/QAM/PAM/pi4-QPSK/identity modulators and demodulators", "IdentityConstraint", "PerfectChannel", "BinarySymmetricChannel", "BinaryErasureChannel", "AWGNChannel", "the same channels configured as ideal (p = 0, noise power 0)"]
 COMPONENTS_STUB = ["FaultChannel (harness injector)", "TapModulator/TapDemodulator (delegating recorders)", "InverseEncodeDecoder (wraps encoder.inverse_encode as a decoder stage)"]
 
 HARD_FAMILIES = ["hamming", "hamming", "repetition", "spc", "reed_muller", "cyclic", "bch", "bch", "golay", "reed_solomon", "linear", "systematic"]
@@ -113,6 +113,11 @@ def gen_case(run_seed: int, index: int, tier: str) -> dict:
     soft = rng.random() < 0.35
     spec = C.gen_code_spec(rng, SOFT_FAMILIES if soft else HARD_FAMILIES)
     huge = index % 3000 == 13  # one very large batch per 3000 runs: more rows than 2**24 / 2**k through one chain call
+    # thorough tier only: one chain call that makes more than 2**24 channel uses of an ideal library channel
+    wide = tier == "thorough" and index % 25000 == 17
+    if wide:
+        soft = False
+        spec = {"family": "spc", "k": 7}
     if huge:
         soft = False
         spec = rng.choice([{"family": "golay", "extended": False, "information_set": "left"}, {"family": "hamming", "mu": 4, "extended": False, "information_set": "left"}])
@@ -122,8 +127,8 @@ def gen_case(run_seed: int, index: int, tier: str) -> dict:
         kinds = C.decoder_kinds(spec, enc, soft)
         if not kinds:
             raise C.Inadmissible("no decoder of the requested kind for this family")
-        dk = "ml" if huge else rng.choice(kinds)
-        opts = {} if huge else _dec_opts(rng, dk)
+        dk = "ml" if (huge or wide) else rng.choice(kinds)
+        opts = {} if (huge or wide) else _dec_opts(rng, dk)
         C.build_decoder(spec, dk, opts)
     except C.Inadmissible as e:
         case["inadmissible"] = str(e)[:300]
@@ -138,9 +143,14 @@ def gen_case(run_seed: int, index: int, tier: str) -> dict:
     if not soft and t is not None:
         plans += ["flips"] * 5 + ["bsc"]
     pk = "flips" if huge else rng.choice(plans)
+    ideal_impl = "perfect"
+    if wide:
+        pk, ideal_impl = "ideal", rng.choice(["bsc0", "bsc0", "bec0"])
+    elif pk == "ideal":
+        ideal_impl = rng.choice(["perfect", "perfect", "awgn0"] + ([] if soft else ["bsc0", "bec0"]))
     if huge:
         mod = {"scheme": "bpsk", "complex_output": rng.random() < 0.5}
-    elif pk == "bsc":
+    elif pk == "bsc" or ideal_impl in ("bsc0", "bec0"):
         mod = {"scheme": "identity"}
     elif soft:
         mod = C.gen_mod_spec(rng, ["bpsk", "qpsk", "psk", "qam", "qam", "pam", "pi4qpsk"])
@@ -156,10 +166,11 @@ def gen_case(run_seed: int, index: int, tier: str) -> dict:
         case["inadmissible"] = f"modem: {e}"[:300]
         return case
     b = next((bb for bb in (1, 2, 3, 4) if (bb * n) % bps == 0), None)
-    if b is None or (b > 1 and pk != "bsc" and not _accepts_multiblock(spec, dk, opts, n) and rng.random() < 0.8):
+    bits_channel = pk == "bsc" or ideal_impl in ("bsc0", "bec0")
+    if b is None or (b > 1 and not bits_channel and not _accepts_multiblock(spec, dk, opts, n) and rng.random() < 0.8):
         # a decoder that rejects rows carrying several blocks (measured on this tree with the all-zero word)
         # gets most of its runs on one block per row; sampling bias only, the oracle is unchanged
-        mod = {"scheme": "bpsk", "complex_output": rng.random() < 0.5} if pk != "bsc" else mod
+        mod = {"scheme": "bpsk", "complex_output": rng.random() < 0.5} if not bits_channel else mod
         m, _ = C.build_modem(mod)
         bps, b = 1, 1
     if b == 1 and rng.random() < 0.25 and n * 2 <= 64:
@@ -167,13 +178,24 @@ def gen_case(run_seed: int, index: int, tier: str) -> dict:
     B = rng.choice([1, 1, 2, 3, 4, 4, 8])
     if huge:
         b, B = 1, (1 << 24) // (1 << k) + rng.choice([3, 4, 37])
+    if wide:
+        b, B = 1, (1 << 24) // n + rng.choice([5, 6, 41])
     case["mod"], case["B"], case["b"] = mod, B, b
     # bits arrive in whatever dtype the caller keeps them in (a dtype may be rejected, never answered wrongly)
     case["msg_dtype"] = rng.choice(["float32", "float32", "float32", "float32", "float64", "int64", "int32", "uint8", "int8", "float16"])
     zero_msg = rng.random() < 0.05
     case["messages"] = [[0 if zero_msg else rng.randrange(2) for _ in range(b * k)] for _ in range(B)]
+    if wide:
+        case["messages"] = [[0] * k]  # placeholder; the rows are generated from the seed below (too many to list)
+        case["messages_gen"] = {"seed": rng.randrange(1 << 31), "rows": B, "bits": k}
+        case["msg_dtype"] = "float32"
+        huge = True  # no warm-ups, no sibling variations for this one
+    if B == 1 and b == 1 and not huge and rng.random() < 0.12:
+        case["one_d"] = True  # a single unbatched word (k,): a layout a component may reject, never answer wrongly
     if rng.random() < 0.3 and not huge:  # the same chain object has been used before (other batch sizes, same framing)
         case["warmup_messages"] = [[[rng.randrange(2) for _ in range(b * k)] for _ in range(rng.choice([1, 1, 2, 3]))] for _ in range(rng.choice([1, 1, 2, 3, 5]))]
+        if rng.random() < 0.4:  # the very messages of the judged call have been sent before (over the undisturbed channel)
+            case["warmup_messages"].insert(rng.randrange(len(case["warmup_messages"]) + 1), [list(r_) for r_ in case["messages"]])
         if rng.random() < 0.2:  # one earlier call is malformed (one bit too many) and raises; the chain is used again afterwards
             case["warmup_messages"].insert(rng.randrange(len(case["warmup_messages"]) + 1), [[rng.randrange(2) for _ in range(b * k + 1)]])
     if rng.random() < 0.15:  # a similar code (same encoder class, same n and k) was set up earlier in the process
@@ -184,6 +206,8 @@ def gen_case(run_seed: int, index: int, tier: str) -> dict:
     # ---- the plan itself
     if pk == "ideal":
         case["plan"] = {"kind": "ideal"}
+        if ideal_impl != "perfect":
+            case["plan"].update({"impl": ideal_impl, "torch_seed": rng.randrange(1 << 31)})
     elif pk == "flips":
         same = rng.random() < 0.3
         pats = []
@@ -278,9 +302,13 @@ def execute(case: dict) -> RunResult:
     for kf, v in lr.fired.items():
         res.faults[f"{plan['kind']}.{kf}"] += v
     damaged = sum(lr.fired.values()) > 0 and plan["kind"] != "ideal"
-    msg = torch.tensor(case["messages"], dtype=torch.float32)
+    msg = linksim.case_messages(case)
     log.add("result", {"out": lr.out if lr.exc is None else f"raised {type(lr.exc).__name__}", "in_budget": lr.in_budget, "fired": lr.fired})
     res.probes[f"plan.{plan['kind']}"] += 1
+    if plan["kind"] == "ideal":
+        res.probes[f"ideal_channel.{plan.get('impl', 'perfect')}"] += 1
+        if "messages_gen" in case:
+            res.probes["wide_ideal_cases(2^24+ channel uses)"] += 1
     res.probes[f"msg_dtype.{case.get('msg_dtype', 'float32')}"] += 1
     if case.get("warmup_messages"):
         res.faults["history.earlier_calls_on_same_chain"] += len(case["warmup_messages"])
@@ -297,6 +325,8 @@ def execute(case: dict) -> RunResult:
             res.probes["flips.weight_exactly_t"] += 1
     if not lr.in_budget:
         res.probes[f"over_budget.{plan['kind']}"] += 1  # relaxed: nothing is promised
+    elif lr.exc is not None and case.get("one_d"):
+        res.probes["layout_rejected.unbatched_word"] += 1
     elif lr.exc is not None and case.get("msg_dtype", "float32") != "float32":
         res.probes[f"rejected_dtype.{case['msg_dtype']}"] += 1  # a dtype may be rejected; it may not be answered wrongly
     elif lr.exc is not None:
@@ -307,6 +337,9 @@ def execute(case: dict) -> RunResult:
             violate(f"exception:{type(lr.exc).__name__}@{lr.exc_stage}", f"the link raised {type(lr.exc).__name__}: {str(lr.exc)[:160]} (in stage: {lr.exc_stage})")
     else:
         out = lr.out
+        if case.get("one_d") and isinstance(out, torch.Tensor) and out.dim() == 1:
+            out = out.unsqueeze(0)
+            res.probes["layout.unbatched_word"] += 1
         if not isinstance(out, torch.Tensor):
             violate("not_a_tensor", f"the link returned {type(out).__name__}")
         elif list(out.shape) != list(msg.shape):
@@ -332,6 +365,14 @@ def shrink_key(sig):
 
 def shrink_candidates(case: dict):
     if "inadmissible" in case:
+        return
+    if "messages_gen" in case:
+        g = case["messages_gen"]
+        for rows in (g["rows"] // 2, g["rows"] - 1):  # fewer rows of the same generated batch; nothing else is varied
+            if rows >= 1:
+                c = copy.deepcopy(case)
+                c["messages_gen"]["rows"] = c["B"] = rows
+                yield c
         return
     k_total = len(case["messages"][0])
     if case["B"] > 1:
